@@ -90,10 +90,12 @@ Theorem C04_src_xpub_new_position : forall m x l claim resulting,
 Proof. exact src_xpub_new_position_eq. Qed.
 Print Assumptions C04_src_xpub_new_position.
 
-Theorem C04_src_xpub_position : forall m x,
+(* the exclusive publication's own cursor: position = term begin + term offset, accepted strictly below the limit *)
+Theorem C04_src_xpub_position : forall m x position limit,
   src_xpub_offer_position m (x_begin x) (x_off x) = add64 m (x_begin x) (x_off x) /\
-  src_xpub_position m (x_begin x) (x_off x) = add64 m (x_begin x) (x_off x).
-Proof. exact src_xpub_position_eq. Qed.
+  src_xpub_position m (x_begin x) (x_off x) = add64 m (x_begin x) (x_off x) /\
+  src_xpub_offer_below_limit m position limit = Ok (position <? limit).
+Proof. intros. destruct (src_xpub_position_eq m x) as (A & B). exact (conj A (conj B (src_xpub_offer_below_limit_eq m position limit))). Qed.
 Print Assumptions C04_src_xpub_position.
 
 (* TermAppender: the space an unfragmented / a fragmented message needs, the end-of-term decision and the padding *)
